@@ -23,7 +23,7 @@ ids = ids or sorted(os.listdir(ROOT))
 TAG = "wtc" if prop_arg else "wtt"
 BASE = "/tmp/" + TAG
 os.makedirs(BASE, exist_ok=True)
-KNOWN_FAIL = {"tests/test_ray.py::RayTests::test_on_edge"}
+KNOWN_FAIL = {"tests/test_ray.py::RayTests::test_on_edge", "tests/test_primitives.py::PrimitiveTest::test_primitives"}  # the second one is flaky on the unmodified tree
 
 
 def sh(cmd, **kw):
